@@ -1042,7 +1042,7 @@ def life_scripts(tier, rng):
     return scripts
 
 
-def run_life(scripts, race=False, watchdog=3000):
+def run_life(scripts, race=False, watchdog=3000, cmd="life-run", procs=8):
     """Runs lifecycle scripts in driver processes (a hang abandons the process; the rest is re-run)."""
     import shutil
     import subprocess
@@ -1052,7 +1052,6 @@ def run_life(scripts, race=False, watchdog=3000):
     racelog = os.path.join(run, "race")
     try:
         sf = os.path.join(run, "scripts.ndjson")
-        procs = 8
         parts = [scripts[i::procs] for i in range(procs)]
         jobs = []
         for k, part in enumerate(parts):
@@ -1068,7 +1067,7 @@ def run_life(scripts, race=False, watchdog=3000):
             env["GORACE"] = "log_path=%s halt_on_error=0 exitcode=0" % racelog
         pending = []
         for j in jobs:
-            j["p"] = subprocess.Popen([drv, "life-run", "-scripts", j["pf"], "-out", j["rf"], "-seed", str(SEED), "-watchdog", str(watchdog)],
+            j["p"] = subprocess.Popen([drv, cmd, "-scripts", j["pf"], "-out", j["rf"], "-seed", str(SEED), "-watchdog", str(watchdog)],
                                       cwd=run, stdout=subprocess.DEVNULL, stderr=subprocess.DEVNULL, env=env)
             pending.append(j)
         import time as _t
@@ -1088,12 +1087,12 @@ def run_life(scripts, race=False, watchdog=3000):
                     with open(j["pf"], "w") as fh:
                         for s_ in rest:
                             fh.write(json.dumps(s_) + "\n")
-                    j["p"] = subprocess.Popen([drv, "life-run", "-scripts", j["pf"], "-out", j["rf"], "-seed", str(SEED), "-watchdog", str(watchdog)],
+                    j["p"] = subprocess.Popen([drv, cmd, "-scripts", j["pf"], "-out", j["rf"], "-seed", str(SEED), "-watchdog", str(watchdog)],
                                               cwd=run, stdout=subprocess.DEVNULL, stderr=subprocess.DEVNULL, env=env)
                 elif rc in (0, 3):
                     pending.remove(j)
                 else:
-                    raise Inconclusive("life-run died rc=%s" % rc)
+                    raise Inconclusive("%s died rc=%s" % (cmd, rc))
         for j in jobs:
             if os.path.exists(j["rf"]):
                 out += [json.loads(l) for l in open(j["rf"])]
@@ -1104,6 +1103,130 @@ def run_life(scripts, race=False, watchdog=3000):
         return out, races
     finally:
         shutil.rmtree(run, ignore_errors=True)
+
+
+GATE_CFG = ('SPECIFICATION GSpec\nCONSTANTS\n  MaxSearches = %d\n  MaxCalls = %d\n  MaxClock = %d\n  TL = 2\n'
+            '  Modes = {"depth", "time", "inf", "ponder"}\n  FixReject = TRUE\n  FixLimits = TRUE\n  FixTimer = TRUE\n  FixToken = TRUE\n'
+            '  FixTail = TRUE\nINVARIANTS GProps\nCHECK_DEADLOCK FALSE\n')
+
+
+def gate_behaviours(tier):
+    """Behaviours of SearchLifecycleGen.tla (TLC simulation, one file per behaviour) and a selection of them that
+    covers every context switch TLC produced: returns (selected behaviours, generated, features covered)."""
+    quick = tier == "quick"
+    gen, want = (3000, 160) if quick else (30000, 2500)
+    mc = (3, 6, 3) if quick else (4, 7, 4)
+
+    def post(run, art):
+        with open(os.path.join(art, "behaviours.ndjson"), "w") as out:
+            n = 0
+            for f in sorted(os.listdir(os.path.join(run, "beh"))):
+                steps = []
+                for line in open(os.path.join(run, "beh", f)):
+                    if line.startswith("/\\ act = "):
+                        v = json.loads(line[len("/\\ act = "):])
+                        if v != "init":
+                            steps.append(json.loads(v))
+                n += 1
+                out.write(json.dumps({"id": n, "steps": steps}) + "\n")
+    art = vlib.tlc("SearchLifecycleGen", GATE_CFG % mc, workers=1, tag="life-gen-%s" % tier,
+                   args=["-simulate", "file=beh/b,num=%d" % gen, "-depth", "120", "-seed", str(SEED)], keep_out=False, post=post,
+                   pre_dirs=["beh"])
+    behs = [json.loads(l) for l in open(os.path.join(art, "behaviours.ndjson"))]
+
+    def feats(b):
+        fs, prev = set(), None
+        for st in b["steps"]:
+            key = (st["k"], st["l"], json.dumps(st["x"]))
+            if prev is not None and (prev[0] != st["k"] or prev[3] != st["i"]) and st["k"] != "x" and prev[0] != "x":
+                fs.add((prev[0], prev[1], prev[2], key))     # a context switch: which step of whom is followed by which step of another
+            fs.add(key)
+            prev = (st["k"], st["l"], json.dumps(st["x"]), st["i"])
+        return fs
+    fl = [(b, feats(b)) for b in behs if b["steps"]]
+    covered, chosen = set(), []
+    # greedy: always the behaviour that adds most
+    pool = list(fl)
+    while pool and len(chosen) < want:
+        best = max(pool, key=lambda x: len(x[1] - covered))
+        if not best[1] - covered:
+            break
+        chosen.append(best[0])
+        covered |= best[1]
+        pool.remove(best)
+    rng = random.Random(SEED)
+    rest = [b for b, _ in pool]
+    rng.shuffle(rest)
+    chosen += rest[:max(0, want - len(chosen))]
+    allf = set()
+    for _, f in fl:
+        allf |= f
+    return chosen, len(behs), len(covered), len(allf), art
+
+
+def gate_replay(ck, prop, tier):
+    """Specification -> implementation: behaviours of the lifecycle model forced onto the real Search through the hook
+    gates (driver command life-gate)."""
+    chosen, ngen, ncov, nall, art = gate_behaviours(tier)
+    ck.add_tlc(art)
+    byid = {b["id"]: b for b in chosen}
+    results, _ = run_life(chosen, watchdog=8000, cmd="life-gate")
+    again = [byid[r["id"]] for r in results if r["hang"]]
+    if again:
+        confirmed = {}
+        for b in again[:8]:
+            rr, _ = run_life([b], watchdog=20000, cmd="life-gate", procs=1)
+            confirmed[b["id"]] = rr[0]
+        results = [confirmed.get(r["id"], r) if r["hang"] else r for r in results]
+        results = [r for r in results if not r["hang"] or r["id"] in confirmed]
+    if len(results) + max(0, len(again) - 8) != len(chosen):
+        raise Inconclusive("only %d of %d behaviours produced a record" % (len(results), len(chosen)))
+    # a behaviour that left the model is replayed once more on its own: clock ticks are real time, and a stalled
+    # machine makes a timer see more time than the model's clock says
+    redo = [byid[r["id"]] for r in results if r.get("diverged") and not r["hang"]][:24]
+    if redo:
+        rr, _ = run_life(redo, watchdog=8000, cmd="life-gate", procs=2)
+        second = {r["id"]: r for r in rr}
+        results = [second.get(r["id"], r) if (r.get("diverged") and not r["hang"]) else r for r in results]
+
+    def disc(kind, sig, res, detail):
+        b = byid[res["id"]]
+        ck.discs.append({"prop": prop, "kind": kind, "sig": sig, "fen": "", "detail": detail,
+                         "replay": {"behaviour": b, "diverged": res.get("diverged"), "log": res.get("log", [])[-120:]}})
+        key = "%s|%s|%s" % (prop, kind, sig)
+        ck.disc_count[key] = ck.disc_count.get(key, 0) + 1
+    lock, div, steps, switches = 0, 0, 0, 0
+    for res in results:
+        steps += res["matched"]
+        switches += res.get("switches", 0)
+        d = res.get("diverged")
+        if d:
+            div += 1
+            ck.notes.append("DRIFT: behaviour %d left the model at step %d (%s): expected %s, got %s"
+                            % (res["id"], d["step"], d["label"], d["expected"], d["got"]))
+        else:
+            lock += 1
+        if res["hang"]:
+            what = res["hang"].split()[0]
+            disc("call-does-not-return", "hang/" + {"StartSearch": "start", "StopSearch": "stop", "final": "stop"}.get(what, what.lower()), res,
+                 {"hang": res["hang"], "diverged": d})
+            continue
+        if res["panic"]:
+            disc("panic", "panic", res, res["panic"])
+            continue
+        if res["results"] != res["accepted"]:
+            disc("result-count", "results/%s" % ("missing" if res["results"] < res["accepted"] else "extra"), res,
+                 {"accepted_starts": res["accepted"], "results": res["results"], "diverged": d})
+        for e in res.get("early") or []:
+            disc("result-before-stop", "early-result/" + e["mode"], res, {"search": e["search"], "note": e["note"], "diverged": d})
+    ck.cov.setdefault("counters", {})
+    ck.cov["counters"].update({"gate_behaviours_generated": ngen, "gate_behaviours_replayed": len(results), "gate_in_lock_step": lock,
+                               "gate_diverged": div, "gate_steps_in_lock_step": steps, "gate_context_switches_forced": switches,
+                               "gate_features_covered": ncov, "gate_features_in_generated_set": nall})
+    ck.cov["traces_validated_against_impl"] += lock
+    ck.cov["evaluations"] += steps
+    return results
+
 
 
 def life_trace(res):
@@ -1233,6 +1356,8 @@ def check_C14(tier):
             ck.notes.append("DRIFT: run %d (%s) is not a behaviour of SearchLifecycle.tla (matched %d of %d controller events)"
                             % (res["id"], byid[res["id"]]["name"], matched, total))
     drift = len(ok_runs) - nacc - sum(1 for d in ck.discs if d["kind"].startswith("lifecycle-property"))
+    # 3b. the other direction: behaviours of the model forced onto the real code through the hook gates
+    gate_replay(ck, "C14", tier)
     # 4. data races: the same scripts under the race detector
     rres, races = run_life(scripts if quick else scripts[:400], race=True, watchdog=6000)
     import re
@@ -1251,16 +1376,17 @@ def check_C14(tier):
             ck.discs.append({"prop": "C14", "kind": "data-race", "sig": sig, "fen": "", "detail": blk[:1500], "replay": {}})
             key = "C14|data-race|" + sig
             ck.disc_count[key] = ck.disc_count.get(key, 0) + 1
-    ck.cov["evaluations"] = len(results) + len(rres)
+    ck.cov["evaluations"] += len(results) + len(rres)
     ck.cov["distinct_nontrivial"] = len({json.dumps(s_["calls"]) + str(s_["jitter"]) + "/" + str(s_.get("procs", 0)) for s_ in scripts})
-    ck.cov["traces_validated_against_impl"] = nacc
-    ck.cov["counters"] = {"scripts": len(scripts), "runs_explained_by_model": nacc, "model_drift": drift,
-                          "race_detector_runs": len(rres), "race_reports_in_engine_code": nrace}
+    ck.cov["traces_validated_against_impl"] += nacc
+    ck.cov.setdefault("counters", {}).update({"scripts": len(scripts), "runs_explained_by_model": nacc, "model_drift": drift,
+                                              "race_detector_runs": len(rres), "race_reports_in_engine_code": nrace})
     ck.cov["rule"] = ("SearchLifecycle.tla model-checked for all interleavings of controller, search and timer goroutines (%d searches, %d calls, "
                       "%d clock ticks); real controller scripts (the named counterexamples of the unrepaired code and seeded random scripts, "
                       "with random delays injected at the hooks) run against the real Search with a watchdog on every call, each recorded run "
                       "validated against the model with the lifecycle properties (SearchLifecycleTrace.tla), and repeated under the Go race "
-                      "detector; non-trivial = distinct scripts" % mc)
+                      "detector; behaviours of the model (SearchLifecycleGen.tla, TLC simulation, selected to cover every context switch "
+                      "generated) forced onto the real Search step by step through the hook gates; non-trivial = distinct scripts" % mc)
     ck.cov["samples"] = [{"script": byid[r["id"]]["name"], "calls": [c["op"] + (":" + c["mode"] if c.get("mode") else "") for c in byid[r["id"]]["calls"]],
                           "events": [e["g"] + ":" + e["at"] for e in r["events"]][:40]} for r in results[:2]]
     return ck.finish()
@@ -1283,6 +1409,109 @@ def uci_model(tier):
         optf = json.loads(json.loads(l.rstrip()[len('<<"OPTS", '):-2]))
         break
     return a, optf
+
+
+def handler_sessions(tier, rng):
+    """Sessions generated by UciHandler.tla (TLC simulation) bound to real games from the ChessGame walks.
+    Returns (scripts-without-ids, artefact): each script has steps, the FEN expected at every sync (None = not constrained)."""
+    quick = tier == "quick"
+    nsess = 60 if quick else 1500
+    cfg = "SPECIFICATION HSpec\nCONSTANTS\n  MaxLines = 44\n  TraceFile = \"none\"\nINVARIANTS HSane\nCHECK_DEADLOCK FALSE\n"
+
+    def post(run, art):
+        with open(os.path.join(art, "sessions.ndjson"), "w") as out:
+            for f in sorted(os.listdir(os.path.join(run, "beh"))):
+                acts = []
+                for line in open(os.path.join(run, "beh", f)):
+                    if line.startswith("/\\ act = "):
+                        v = json.loads(line[len("/\\ act = "):])
+                        if v != "init":
+                            acts.append(json.loads(v))
+                out.write(json.dumps(acts) + "\n")
+    art = vlib.tlc("UciHandler", cfg, workers=1, tag="uci-gen-%s" % tier, keep_out=False, post=post, pre_dirs=["beh"],
+                   args=["-simulate", "file=beh/s,num=%d" % nsess, "-depth", "44", "-seed", str(SEED)])
+    sessions = [json.loads(l) for l in open(os.path.join(art, "sessions.ndjson"))]
+    # ---- real games for the abstract ones: prefixes of TLC walks (every prefix is a state of ChessGame, with its FEN and legal moves)
+    nodes = sl.load_nodes(shared(tier)["walk"], want=lambda o: len(o["path"]) <= 6)
+    by = {(n["rootidx"], tuple(n["path"])): n for n in nodes}
+    long6 = sorted((k for k in by if len(k[1]) == 6 and all((k[0], k[1][:i]) in by for i in range(7))), key=lambda k: (k[0], k[1]))
+    if not long6:
+        raise Inconclusive("no walk of 6 plies in the walk artefact")
+    rootfen = lambda k: fenspec.state_to_fen(by[(k[0], ())]["root"])   # noqa: E731
+    starts = [k for k in long6 if rootfen(k) == START_FEN] or long6
+    families = []
+    for _ in range(8):
+        g1 = rng.choice(starts)
+        # game 2: the first three plies of game 1, then a different fourth ply (a sibling in the walk's fringe)
+        sib = [k for k in by if k[0] == g1[0] and len(k[1]) == 4 and k[1][:3] == g1[1][:3] and k[1] != g1[1][:4]]
+        others = [k for k in long6 if k[0] != g1[0] and rootfen(k) != START_FEN]
+        if not sib or not others:
+            continue
+        g3 = rng.choice(others)
+        families.append([g1, rng.choice(sorted(sib)), (g3[0], g3[1][:5])])
+    if not families:
+        raise Inconclusive("no game family in the walk artefact")
+
+    def pos_cmd(game, k):
+        root = rootfen(game)
+        cmd = "position startpos" if root == START_FEN else "position fen " + root
+        if k:
+            cmd += " moves " + " ".join(fenspec.mv_uci(m) for m in game[1][:k])
+        return cmd
+    S = ul.send
+    out = []
+    for i, acts in enumerate(sessions):
+        fam = families[i % len(families)]
+        steps, expect = [S("uci"), ul.wait("uciok", 3000)], []
+        cur, cur_node = None, None       # FEN the engine must hold (None after ucinewgame: not part of the property)
+        start_node = by[(fam[0][0], ())] if rootfen(fam[0]) == START_FEN else None
+
+        def sync():
+            steps.append(ul.sync())
+            expect.append(cur)
+        for a in acts:
+            c = a["c"]
+            if c == "position":
+                g, k = a["a"]
+                game = fam[g - 1]
+                steps.append(S(pos_cmd(game, k)))
+                cur_node = by[(game[0], game[1][:k])]
+                cur = fenspec.state_to_fen(cur_node["pos"])
+                sync()
+            elif c == "ucinewgame":
+                steps.append(S("ucinewgame"))
+                cur, cur_node = None, start_node
+                sync()
+            elif c == "setoption":
+                steps.append(S("setoption name %s value %s" % (a["a"][0], "true" if a["a"][1] else "false")))
+                sync()
+            elif c == "go":
+                kind = a["a"]
+                legal = [fenspec.mv_uci(m) for m in (cur_node["legal"] if cur_node else [])]
+                go = {"depth": "go depth 3", "nodes": "go nodes 1500", "movetime": "go movetime 50", "clock": "go wtime 400 btime 400 winc 10 binc 10",
+                      "searchmoves": ("go depth 2 searchmoves " + " ".join(legal[:2])) if len(legal) >= 2 else "go depth 2",
+                      "inf": "go infinite", "infdepth": "go infinite depth 2", "ponderclock": "go ponder wtime 400 btime 400",
+                      "ponderdepth": "go ponder depth 2"}[kind]
+                steps.append(S(go))
+                if kind in ("inf", "infdepth", "ponderclock", "ponderdepth"):
+                    steps.append(ul.quiet("bestmove", 40))
+            elif c == "stop":
+                steps.append(S("stop"))
+            elif c == "ponderhit":
+                steps.append(S("ponderhit"))
+            elif c == "bestmove":
+                steps.append(ul.wait("bestmove", 8000))
+                sync()       # a search leaves the handler's position alone
+            elif c == "readyok":
+                sync()       # (the isready of the model is the one the sync sends)
+        # a session that ends with an unanswered infinite / ponder search is closed properly
+        pend = [a["c"] for a in acts if a["c"] in ("go", "bestmove")]
+        if pend and pend[-1] == "go":
+            steps += [S("stop"), ul.wait("bestmove", 8000)]
+            sync()
+        out.append({"steps": steps, "expect": expect, "acts": [a["c"] for a in acts]})
+    return out, art
+
 
 
 def check_C12(tier):
@@ -1353,6 +1582,12 @@ def check_C12(tier):
             add("option", [S("uci"), ul.wait("uciok", 3000), S("setoption name Print Config"), ul.sync(),
                            S("setoption name %s value %s" % (name, val)), ul.sync(), S("setoption name Print Config"), ul.sync()],
                 option=name, value=val)
+    # ---- sessions generated from UciHandler.tla: position commands that extend / shorten / repeat / replace one another,
+    # mixed with every other command; the handler's position is compared with the specification's after every step
+    hsess, hart = handler_sessions(tier, rng)
+    ck.add_tlc(hart)
+    for h in hsess:
+        add("handler", h["steps"], expect=h["expect"], acts=h["acts"])
     res = ul.run_sessions(scripts)
     # wall-clock clauses (answer within a time-out, prompt stop) are confirmed by running the session again, alone,
     # before they count: a loaded machine must not raise an alarm
@@ -1401,6 +1636,19 @@ def check_C12(tier):
             bm = [e for e in ev if e["ev"] == "out" and e.get("line", "").startswith("bestmove") and e["t_ms"] >= st_["t_ms"]]
             if bm and bm[0]["t_ms"] - st_["t_ms"] > 500:
                 disc("stop-not-prompt", "stop-latency", sid, {"ms": bm[0]["t_ms"] - st_["t_ms"]})
+        if m["name"] == "handler":
+            traces[sid] = ul.trace_of(ev)
+            got = [e.get("line", "") for e in ev if e["ev"] == "fen"]
+            if len(got) == len(m["expect"]):
+                for j, (g_, e_) in enumerate(zip(got, m["expect"])):
+                    if e_ is None:
+                        continue
+                    nfen += 1
+                    if g_ != e_:
+                        prev = [x.get("line", "") for x in ev if x["ev"] == "in" and not x.get("line", "").startswith("isready")]
+                        disc("position-command", "position/fen-differs/session", sid,
+                             {"engine": g_, "specification": e_, "sync_number": j + 1, "commands": prev[:40]})
+                        break
         if m["name"] == "protocol":
             traces[sid] = ul.trace_of(ev)
             fens = [e.get("line", "") for e in ev if e["ev"] == "fen"]
@@ -1482,11 +1730,13 @@ def check_C12(tier):
     ck.cov["evaluations"] = len(scripts)
     ck.cov["distinct_nontrivial"] = len(scripts)
     ck.cov["traces_validated_against_impl"] = nacc
-    ck.cov["counters"] = {"protocol_sessions": nsess, "sessions_accepted_by_spec": nacc, "position_fens_compared": nfen,
+    ck.cov["counters"] = {"protocol_sessions": nsess, "handler_sessions": len(hsess), "sessions_accepted_by_spec": nacc, "position_fens_compared": nfen,
                           "newgame_pairs": ncmp, "option_sessions": nopt}
     ck.cov["rule"] = ("real UciHandler.Loop sessions over pipes, one child process each: seeded protocol-valid sessions (every go mode, go sent "
                       "immediately after bestmove, isready during search, stop, ponderhit) whose exchanged lines are validated against "
-                      "UciSession.tla; position commands built from TLC walk nodes with the FEN expected by the specification; ucinewgame "
+                      "UciSession.tla; sessions generated by TLC from UciHandler.tla (position commands extending / shortening / repeating / "
+                      "replacing one another, mixed with every kind of go, stop, ponderhit, isready, ucinewgame, setoption) with the handler's "
+                      "position compared with the specification's after every step; position commands built from TLC walk nodes with the FEN expected by the specification; ucinewgame "
                       "against a fresh engine; every option against the configuration print-out (OptionField of the specification)")
     ck.cov["samples"] = [{"session": s_["name"], "lines": [e["ev"] + ": " + e.get("line", "") for e in res[s_["id"]]["events"] if e["ev"] in ("in",)][:14]}
                          for s_ in scripts[:2]]
@@ -2186,6 +2436,17 @@ def main():
             return setup()
         if a.what == "selftest":
             return selftest()
+        if a.what == "part":
+            # development aid: one part of a check alone, verdict lines only, no evidence file (e.g. `part --replay gate:C14`)
+            name, prop = a.replay.split(":")
+            ck = Check(prop, a.tier)
+            {"gate": lambda: gate_replay(ck, prop, a.tier)}[name]()
+            for d in ck.discs[:12]:
+                print("DISC", d["kind"], d["sig"], json.dumps(d["detail"])[:300])
+            print("NOTES", ck.notes[:8])
+            print("COUNTERS", ck.cov.get("counters"))
+            print("disc_count", ck.disc_count)
+            return 1 if ck.discs else 0
         if a.what not in CHECKS:
             print("unknown check", a.what)
             return 2
